@@ -40,6 +40,10 @@ def make(pid, flags, own_prefixes, nontrivial, extra_exc=()):
                 classes.append("has:cap-or-lambda-on-0.0")
         if any("workers" in sg for sg in case["segments"]):
             classes.append("has:restart-on-another-worker-count")
+        if any(sg.get("prelude") for sg in case["segments"]):
+            classes.append("has:another-simulation-earlier-in-the-interpreter")
+        if any(sg.get("handover") == "late" for sg in case["segments"]):
+            classes.append("has:late-hand-over-of-submitted-jobs")
         nt = nontrivial(st, summ)
         rec.case(key=case, nontrivial=nt, classes=classes,
                  sample={"spec": case["spec"], "segments": [{k: v for k, v in s.items() if k != "schedule"} | {"schedule": s["schedule"][:8]} for s in case["segments"]],
